@@ -4,10 +4,12 @@ package main
 
 import (
 	"bufio"
+	"context"
 	"fmt"
 	"net"
 	"strconv"
 	"strings"
+	"time"
 
 	"github.com/postalsys/muti-metroo/internal/agent"
 	"github.com/postalsys/muti-metroo/internal/crypto"
@@ -43,6 +45,11 @@ var c16Types = map[string]map[string]uint8{
 	"tcp":  {"open": protocol.FrameStreamOpen, "ack": protocol.FrameStreamOpenAck, "err": protocol.FrameStreamOpenErr, "data": protocol.FrameStreamData, "close": protocol.FrameStreamClose},
 	"udp":  {"open": protocol.FrameUDPOpen, "ack": protocol.FrameUDPOpenAck, "err": protocol.FrameUDPOpenErr, "data": protocol.FrameUDPDatagram, "close": protocol.FrameUDPClose},
 	"icmp": {"open": protocol.FrameICMPOpen, "ack": protocol.FrameICMPOpenAck, "err": protocol.FrameICMPOpenErr, "data": protocol.FrameICMPEcho, "close": protocol.FrameICMPClose},
+}
+
+type c16UICall struct {
+	done   chan error
+	cancel context.CancelFunc
 }
 
 // c16Exit is the exit-endpoint side of the world: the agent's real exit.Handler, a loopback sink as
@@ -141,7 +148,15 @@ func (w *c16World) agentOutX(x *c16Exit, extra []string) string {
 		keys = append(keys, fmt.Sprintf("%d:%d", k, x.serialOf(exit.C17Record(x.h, k))))
 	}
 	return "sent=[" + strings.Join(parts, " ") + "] x=[" + strings.Join(extra, " ") + "] | tcp " + c16ShowTable(tcp) + " | udp " + c16ShowTable(udp) +
-		" | icmp " + c16ShowTable(icmp) + " | exit=[" + strings.Join(keys, " ") + "] uexit=[" + strings.Join(c16UKeys(w), " ") + "]"
+		" | icmp " + c16ShowTable(icmp) + " | exit=[" + strings.Join(keys, " ") + "] uexit=[" + strings.Join(c16UKeys(w), " ") + "] uidx=[" + strings.Join(c16UIdx(w), " ") + "]"
+}
+
+func c16UIdx(w *c16World) []string {
+	var out []string
+	for _, k := range agent.C16IngressIndex(w.a) {
+		out = append(out, fmt.Sprint(k))
+	}
+	return out
 }
 
 func c16UKeys(w *c16World) []string {
@@ -170,7 +185,8 @@ func init() {
 	var w *c16World
 	var t *agent.C16Table
 	var x *c16Exit
-	var reqID uint64
+	var reqID, uiSeq uint64
+	uiCalls := map[uint64]*c16UICall{}
 	eng := &Engine{
 		Run: func(line string) string {
 			f := fields(line)
@@ -191,6 +207,15 @@ func init() {
 			x.relayedAckErr = f[0] == "ack" || f[0] == "err"
 			switch f[0] {
 			case "reset":
+				for _, c := range uiCalls {
+					c.cancel()
+				}
+				uiCalls = map[uint64]*c16UICall{}
+				var allPeers []identity.AgentID
+				for n := 1; n <= 9; n++ {
+					allPeers = append(allPeers, c16ID(n))
+				}
+				agent.C16ResetIngress(w.a, allPeers)
 				if h := agent.C16UDPHandler(w.a); h != nil {
 					for _, k := range udp.C16AssocKeys(h) {
 						h.HandleUDPClose(c16ID(0), k)
@@ -202,6 +227,43 @@ func init() {
 				t = agent.C16NewTable()
 				return "ok"
 			case "end":
+				return w.agentOutX(x, nil)
+			case "uiopen": // a new SOCKS5 UDP client at THIS agent (ingress); its UDP_OPEN goes to peer P (default route)
+				p := c16Atoi(f[1])
+				if w.conns[p] == nil {
+					return w.agentOutX(x, nil)
+				}
+				uiSeq++
+				must(agent.C16AddDefaultRoute(w.a, c16ID(p), uiSeq))
+				ctx, cancel := context.WithTimeout(context.Background(), 20*time.Second)
+				call := &c16UICall{done: make(chan error, 1), cancel: cancel}
+				go func() { call.done <- agent.C16IngressOpen(w.a, ctx, net.IPv4(10, 0, 0, byte(uiSeq))) }()
+				c17Wait("UDP_OPEN of the ingress client", func() bool { return w.bufs[p].Len() > 0 })
+				for _, k := range agent.C16IngressIndex(w.a) {
+					if uiCalls[k] == nil {
+						uiCalls[k] = call
+					}
+				}
+				return w.agentOutX(x, nil)
+			case "uiack", "uierr": // the exit's answer to the ingress client whose local stream id is <id>
+				p, id := c16Atoi(f[1]), c16U64(f[2])
+				var fr *protocol.Frame
+				if f[0] == "uiack" {
+					_, pub, err := crypto.GenerateEphemeralKeypair()
+					must(err)
+					fr = &protocol.Frame{Type: protocol.FrameUDPOpenAck, StreamID: id, Payload: (&protocol.UDPOpenAck{RequestID: 1, BoundAddrType: protocol.AddrTypeIPv4, BoundAddr: []byte{127, 0, 0, 1}, BoundPort: 9, EphemeralPubKey: pub}).Encode()}
+				} else {
+					fr = &protocol.Frame{Type: protocol.FrameUDPOpenErr, StreamID: id, Payload: (&protocol.UDPOpenErr{RequestID: 1, ErrorCode: 1, Message: "refused"}).Encode()}
+				}
+				agent.C16Process(w.a, c16ID(p), fr)
+				if call := uiCalls[id]; call != nil {
+					select {
+					case <-call.done:
+					case <-time.After(3 * time.Second):
+					}
+					call.cancel()
+					delete(uiCalls, id)
+				}
 				return w.agentOutX(x, nil)
 			case "uxopen": // UDP_OPEN with an empty path: this agent is the UDP exit (socket bound synchronously)
 				p, id := c16Atoi(f[1]), c16U64(f[2])
@@ -430,6 +492,19 @@ func c16Gen(w *bufio.Writer, seed int64, tier string) {
 			}
 			fmt.Fprintf(w, "end\n")
 		}
+	}
+	// fixed: this agent is INGRESS for three concurrent SOCKS5 UDP clients (local stream ids 1,3,5 toward peer 4);
+	// the exit refuses one of them; the others' reverse-index entries (return datagrams) must survive
+	for refuse := 0; refuse < 3; refuse++ {
+		fmt.Fprintf(w, "reset\nconn 4 d\nuiopen 4\nuiopen 4\nuiopen 4\n")
+		for k := 0; k < 3; k++ {
+			if k == refuse {
+				fmt.Fprintf(w, "uierr 4 %d\n", 1+2*k)
+			} else {
+				fmt.Fprintf(w, "uiack 4 %d\n", 1+2*k)
+			}
+		}
+		fmt.Fprintf(w, "end\n")
 	}
 	kinds := []string{"tcp", "tcp", "tcp", "udp", "icmp"}
 	for c := 0; c < nA; c++ {
